@@ -262,7 +262,7 @@ def run(tier, seed):
                 "|theta| up to ~30; TLC checks PartialTrace/Hermitian/Diagonal/TraceIsZ/Marginal mod 3 primes; "
                 "every point replayed into DensityMatrix (all pairs of basis states, expand=True/False/1-D); "
                 "non-trivial = every point")
-    pts = [lattice.random_purif_point(rng, nvmax=3 if quick else 4, nhmax=3 if quick else 4, namax=3 if quick else 4)
+    pts = [lattice.random_purif_point(rng, nvmax=3 if quick else 4, nhmax=3 if quick else 4, namax=3 if quick else 4, strong=True)
            for _ in range(150 if quick else 2000)]
     pf = lattice.PointsFile(pts)
     try:
